@@ -112,6 +112,32 @@ Theorem C16_hostile_replies_contained :
 Proof. exact hostile_replies_contained. Qed.
 Print Assumptions C16_hostile_replies_contained.
 
+(* the text of an FFI_ERROR reply is DATA.  From the state right after a successful start, whatever byte string p (printf
+   directives, NUL bytes, escapes, protocol keywords, ...) the peer frames as FFI_ERROR for call j, the call fails with exactly
+   the first VM_EXT_ERR_SIZE - 1 bytes of p, the co-process stays attached, nothing else happens ... *)
+Theorem C16_error_text_verbatim : forall dec j p ign,
+  len p <= COP_MAX_PAYLOAD ->
+  exists w', call_cop dec j (ReqOk []) vm_started (err_world j p ign)
+             = Go (CErr (EMsg (firstn (N.to_nat (VM_EXT_ERR_SIZE - 1)) p))) vm_started w'.
+Proof. exact call_error_text_verbatim. Qed.
+Print Assumptions C16_error_text_verbatim.
+
+(* ... and stderr is "Runtime error: Not implemented\n  " ++ cut (prefix ++ that text as a C string) ++ "\n": the bytes of p are
+   copied, never interpreted.  (Prefix and both buffer sizes are generated from vm.c / vm.h; the translator refuses a report
+   whose format is not a string literal ending in a single %s applied to the text buffer.) *)
+Theorem C16_error_text_is_data : forall p,
+  stderr_report (EMsg (firstn (N.to_nat (VM_EXT_ERR_SIZE - 1)) p)) =
+  Some (runtime_error_line ++ [32; 32] ++
+        firstn (N.to_nat (VM_ERROR_MSG_SIZE - 1)) (VM_FFI_ERR_PREFIX ++ cstr (firstn (N.to_nat (VM_EXT_ERR_SIZE - 1)) p)) ++ [10]).
+Proof. exact error_report_is_data. Qed.
+Print Assumptions C16_error_text_is_data.
+
+Example C16_error_text_examples :
+  stderr_report (EMsg [37; 115; 37; 110]) = Some (runtime_error_line ++ [32; 32] ++ VM_FFI_ERR_PREFIX ++ [37; 115; 37; 110; 10]) /\
+  stderr_report (EMsg [97; 0; 98]) = Some (runtime_error_line ++ [32; 32] ++ VM_FFI_ERR_PREFIX ++ [97; 10]) /\
+  stderr_report (EMsg []) = Some (runtime_error_line ++ [32; 32] ++ VM_FFI_ERR_PREFIX ++ [10]).
+Proof. vm_compute. repeat split; reflexivity. Qed.
+
 (* non-vacuity: the hypotheses of the containment theorems are satisfiable (initial state is well-formed; a healthy script
    runs two calls to completion) *)
 Definition healthy : script :=
